@@ -264,7 +264,11 @@ func cloneValue(v reflect.Value, d int, seen map[uintptr]reflect.Value) reflect.
 	v = readable(v)
 	out := reflect.New(v.Type()).Elem()
 	if isSyncT(v.Type()) {
-		return out // a lock, Once, WaitGroup, Pool: its pristine state is the zero value
+		// a lock, Once, WaitGroup: the pristine state is the zero value; a Pool keeps its New function
+		if v.Type().PkgPath() == "sync" && v.Type().Name() == "Pool" {
+			out.FieldByName("New").Set(v.FieldByName("New"))
+		}
+		return out
 	}
 	if d > 16 || leaveAlone(v.Type()) || v.Kind() == reflect.Chan {
 		out.Set(v)
@@ -327,6 +331,9 @@ func restoreInto(live, init reflect.Value, d int) {
 		// no task is alive between executions: a Once that has fired, a mutex a dead run left locked, a WaitGroup
 		// counter go back to their zero value (a helper goroutine started "once" is started again by the next execution)
 		live.Set(reflect.Zero(live.Type()))
+		if live.Type().PkgPath() == "sync" && live.Type().Name() == "Pool" {
+			live.FieldByName("New").Set(init.FieldByName("New"))
+		}
 		return
 	}
 	if d > 16 || leaveAlone(live.Type()) {
